@@ -113,6 +113,31 @@ def mc(module, cfg=None, workers=NCPU, expect_violation=None, timeout=7200):
     return stats
 
 
+def apalache(module, inv, expect_violation=False, timeout=900):
+    """Symbolic check (Apalache, SMT) of a state predicate of spec/apalache/<module>.tla over all initial states: used for
+    lemmas at the REAL constants that TLC can only enumerate at small ones.  Returns statistics; the tool missing or
+    failing is a machinery failure, like a TLC failure."""
+    t0 = time.time()
+    outdir = os.path.join(scratch(), f"apa_{module}_{inv}")
+    cmd = ["apalache-mc", "check", "--init=Init", f"--inv={inv}", "--length=0", f"--out-dir={outdir}", os.path.join(SPEC, "apalache", module + ".tla")]
+    try:
+        p = subprocess.run(cmd, cwd=scratch(), stdout=subprocess.PIPE, stderr=subprocess.STDOUT, text=True, timeout=timeout,
+                           env=dict(os.environ, JVM_ARGS=os.environ.get("JVM_ARGS", "-Xmx2g")))
+    except (subprocess.TimeoutExpired, FileNotFoundError) as ex:
+        raise MachineryError(f"apalache on {module}.{inv}: {ex}") from ex
+    finally:
+        shutil.rmtree(outdir, ignore_errors=True)
+    ok = "The outcome is: NoError" in p.stdout
+    bad = "The outcome is: Error" in p.stdout
+    if expect_violation:
+        if not bad:
+            raise MachineryError(f"apalache {module}.{inv}: expected a counterexample, got:\n{p.stdout[-1500:]}")
+    elif not ok:
+        raise MachineryError(f"apalache {module}.{inv} failed:\n{p.stdout[-1500:]}")
+    return dict(module=module, cfg=f"apalache --inv={inv}", wall_s=round(time.time() - t0, 1), engine="apalache 0.58 (SMT, symbolic)",
+                **({"expected_violation": inv} if expect_violation else {"states": 0, "distinct": 0}))
+
+
 def _printed_json(out):
     """JSON values printed by PrintT(ToJson(..)): TLC prints the TLA+ string in quotes."""
     res = []
